@@ -599,7 +599,7 @@ def extra_c10(tier, seed):
         text += plan_random_script(cap, rng, 300 if q else 3000)
         text += plan_wear_script(cap, rng)
         return text, info
-    caps = [1, 2, 3, 4, 8] if q else [1, 2, 3, 4, 5, 8, 17, 64, 254]
+    caps = [1, 2, 3, 4, 8, 254] if q else [1, 2, 3, 4, 5, 8, 17, 64, 128, 254]
     return _run("plan", tier, seed, caps, script, ["TL_cap1", "TL_cap2", "TL_cap3"] + ([] if q else ["TL_cap4", "TL_cap5", "TL_cap6"]), "TaskList.tla")
 
 
@@ -617,7 +617,7 @@ def extra_c20(tier, seed):
             info.update(i2)
         text += ba_random_script(cap, rng, 200 if q else 3000) + ar_random_script(cap, rng, 150 if q else 2000)
         return text, info
-    caps = [1, 2, 7, 8, 9, 12, 17] if q else [1, 2, 3, 7, 8, 9, 12, 16, 17, 33, 64, 255]
+    caps = [1, 2, 7, 8, 9, 12, 17, 64, 250, 255] if q else [1, 2, 3, 7, 8, 9, 12, 16, 17, 33, 64, 128, 248, 249, 250, 255]
     return _run("bits", tier, seed, caps, script, ["BA_cap1", "BA_cap7", "BA_cap8", "BA_cap9", "AR_cap3"] + ([] if q else ["BA_cap12"]), None)
 
 
@@ -628,5 +628,5 @@ def extra_c13(tier, seed):
         text, n = bs_script(cap, rng, 60 if q else 800, True)
         bw, nb = bw_script(rng, 100 if q else 3000)
         return text + bw, {"field_sequences": n, "bitwidth_queries": nb}
-    caps = [1, 7, 8, 9, 16, 33] if q else [1, 2, 7, 8, 9, 16, 31, 32, 33, 64, 255]
+    caps = [1, 7, 8, 9, 16, 33, 255] if q else [1, 2, 7, 8, 9, 16, 31, 32, 33, 64, 128, 255]
     return _run("stream", tier, seed, caps, script, ["BS_mixed"] + ([] if q else ["BS_small"]), "BitStream.tla")
